@@ -48,6 +48,12 @@ def make_flow(root, shape, tail, pulls, fault=None):
                 raise Injected('%s fault after the last resource' % where)
         return step
     links.append(core.dataflows.add_field('A', 'integer', 1))
+
+    def row_level(row):
+        # a plain row function before the checkpoint whose code lets a StopIteration escape (e.g. next() on an exhausted helper)
+        if fault and len(fault) > 3 and fault[3] == 'stopiter' and fault[0] == 'up' and row['id'] == 10 * fault[1] + fault[2]:
+            raise StopIteration('row function: StopIteration at resource %d row %d' % (fault[1], fault[2]))
+    links.append(row_level)
     links.append(injector('up'))
     links.append(core.dataflows.checkpoint('cp', checkpoint_path=root))
     links.append(injector('down'))
@@ -332,23 +338,24 @@ def check_scenario(sc):
             shutil.rmtree(r_root, ignore_errors=True)
         # (3) exception from an upstream / downstream step at every row and at exhaustion
         # a validation error (tableschema CastError) raised by a step while rows are flowing is a failure like any other
-        for ri, n in enumerate(shape):
+        # (so is a StopIteration escaping from row-level code: it must not read as the end of the resource)
+        for ri, (n, exkind) in [(ri_, (n_, k_)) for k_ in ('cast', 'stopiter') for ri_, n_ in enumerate(shape)]:
             for j in range(n if sc.get('deep') else min(n, 1)):
                 r_root = os.path.join(d, 'c')
                 shutil.rmtree(r_root, ignore_errors=True)
                 os.makedirs(r_root)
                 frec = fsrec.Recorder(r_root)
                 with frec.active():
-                    fr = run_flow(r_root, shape, tail, fault=('up', ri, j, 'cast'))
+                    fr = run_flow(r_root, shape, tail, fault=('up', ri, j, exkind))
                 after = frec.points[-1][1]
                 if fr[0] == 'ok':
-                    V('fault-swallowed', 'cast error in the upstream step at resource %d row %d but the run returned normally' % (ri, j),
+                    V('fault-swallowed', '%s raised by the upstream step at resource %d row %d but the run returned normally' % (exkind, ri, j),
                       {'kind': 'castfault', 'ri': ri, 'j': j})
-                v, committed = recover(after, shape, tail, ref, 'cast error in the upstream step at resource %d row %d' % (ri, j), d)
-                if not v and fr[0] == 'exc' and committed:
-                    v = ('failed-run-committed', 'cast error in the upstream step at resource %d row %d: the failed run left a committed '
-                         'checkpoint behind' % (ri, j))
-                note('castfault:%s' % ('committed' if committed else 'uncommitted'), h(['castfault', shape, tail, ri, j]))
+                v, committed = recover(after, shape, tail, ref, '%s raised by the upstream step at resource %d row %d' % (exkind, ri, j), d)
+                if not v and committed:
+                    v = ('failed-run-committed', '%s raised by the upstream step at resource %d row %d: the run left a committed '
+                         'checkpoint behind' % (exkind, ri, j))
+                note('%sfault:%s' % (exkind, 'committed' if committed else 'uncommitted'), h([exkind + 'fault', shape, tail, ri, j]))
                 if v:
                     V(v[0], v[1], {'kind': 'castfault', 'ri': ri, 'j': j})
         for where in ('up', 'down'):
@@ -402,6 +409,61 @@ def check_scenario(sc):
     return out
 
 
+def check_generator_source(sc):
+    """An in-memory generator source (100-row inference sample) that breaks at row k: before, inside and beyond the sample."""
+    out = {'n': 0, 'keys': [], 'outcomes': {}, 'viol': []}
+    n, tail = 130, sc['tail']
+    with core.scratch_dir() as d:
+        for k in (0, 50, 99, 100, 101, 129):
+            root = os.path.join(d, 'g%d' % k)
+            os.makedirs(root)
+
+            def gen(fail_at):
+                for i in range(n):
+                    if i == fail_at:
+                        raise Injected('the source breaks at row %d' % i)
+                    yield {'id': i, 't': 'v%d' % i}
+
+            def flow(fail_at):
+                links = [gen(fail_at), core.dataflows.checkpoint('cp', checkpoint_path=root)]
+                if tail:
+                    links.append(core.dataflows.add_field('B', 'integer', 2))
+                return core.Flow(*links)
+            try:
+                flow(k).results()
+                failed = False
+            except Exception:
+                failed = True
+            import gc
+            gc.collect()
+            committed = os.path.exists(os.path.join(root, 'cp', 'stream.ndjson'))
+            out['n'] += 1
+            out['keys'].append(h(['gensrc', tail, k]))
+            out['outcomes']['gensrc:%s' % ('committed' if committed else 'uncommitted')] = out['outcomes'].get('gensrc:%s' % ('committed' if committed else 'uncommitted'), 0) + 1
+            label = 'generator source of %d rows breaking at row %d, checkpoint%s' % (n, k, ' + step' if tail else '')
+            if not failed:
+                out['viol'].append(('fault-swallowed/generator-source', '%s: the run returned normally' % label, {'gensrc': True, 'tail': tail}))
+            elif committed:
+                out['viol'].append(('failed-run-committed/generator-source', '%s: the failed run left a committed checkpoint' % label,
+                                    {'gensrc': True, 'tail': tail}))
+            else:
+                try:
+                    rows = flow(None).results()[0]
+                    if [len(r) for r in rows] != [n]:
+                        out['viol'].append(('recovery-differs/generator-source', '%s: the next run returns %r rows' % (label, [len(r) for r in rows]),
+                                            {'gensrc': True, 'tail': tail}))
+                except Exception as e:
+                    out['viol'].append(('recovery-raises/generator-source', '%s: the next run raises %s' % (label, core.exc_sig(e)), {'gensrc': True, 'tail': tail}))
+    uniq, seen = [], set()
+    for v in out['viol']:
+        if v[0] not in seen:
+            seen.add(v[0])
+            uniq.append(v)
+    out['viol'] = uniq
+    out['sample'] = {'generator_source_rows': n, 'tail': tail}
+    return out
+
+
 def scenarios(tier):
     shapes = []
     for nres in (1, 2, 3):
@@ -418,6 +480,8 @@ def run(run):
     scs = scs[k:] + scs[:k]
     for res in run.map(check_scenario, scs, chunksize=1, limit=1200):
         run.absorb(res)
+    for res in run.map(check_generator_source, [{'tail': False}, {'tail': True}], chunksize=1, limit=600):
+        run.absorb(res)
     run.rule = ('for each pipeline shape (1..3 resources x 0..2 rows, checkpoint last or followed by a step): every '
                 'distinct directory content observable at any interception point of the recorded run (before/after '
                 'every makedirs/open/write/flush/close/rename, torn flushes, partially auto-flushed buffers), an '
@@ -430,5 +494,7 @@ def run(run):
 
 
 def replay(w):
+    if w.get('gensrc'):
+        return check_generator_source({'tail': w['tail']})['viol']
     out = check_scenario({'shape': w['shape'], 'tail': w['tail'], 'deep': True})
     return out['viol']
